@@ -1,6 +1,6 @@
 (* C05 - A prior solution reproduces itself.  Statements and `exact` only. *)
 From Coq Require Import List String Bool NArith.
-From RC Require Import lib.Pep440 lib.Name model.Merge model.Graph model.Solver proofs.SolverP proofs.StackP proofs.WitnessSolver proofs.SolverStatements.
+From RC Require Import lib.Pep440 lib.Name model.Merge model.Graph model.Solver proofs.SolverP proofs.StackP proofs.WitnessSolver proofs.SolverStatements proofs.ReproP proofs.ReproEx.
 Import ListNotations.
 Open Scope string_scope.
 Open Scope list_scope.
@@ -45,6 +45,62 @@ Theorem C05_recorded_version_falls_through :
   get_dist_stack ((sol, true) :: rest) r budget = get_dist_stack rest r budget.
 Proof. exact recorded_version_falls_through. Qed.
 Print Assumptions C05_recorded_version_falls_through.
+
+(* THE WHOLE COMPILE, for all inputs, all consistent solutions, all repositories behind the solution and all fuel:
+   a prior solution that is consistent (every requirement of every input and of every recorded pin is met by a
+   recorded pin; names are spelled so that the node key and the repository key agree; inputs are requirement files)
+   makes whatever stands behind it in the repository stack irrelevant - nothing, or indexes that have gained any
+   number of newer versions: graph, roots, failure and trace are the same, so the other repositories are not
+   needed (proved by an invariant on the graph and induction on the fuel, ReproP). *)
+Theorem C05_consistent_solution_makes_other_repositories_irrelevant :
+  forall pins inputs, consistent pins inputs ->
+  forall rest rest' fuel e rc md,
+    perform_compile_stack_x fuel e ((sol_of pins, true) :: rest)  inputs None rc md false [] [] =
+    perform_compile_stack_x fuel e ((sol_of pins, true) :: rest') inputs None rc md false [] [].
+Proof. exact solution_makes_the_other_repositories_irrelevant. Qed.
+Print Assumptions C05_consistent_solution_makes_other_repositories_irrelevant.
+
+(* ... and it reproduces itself: the compile never ends in NoCandidate, and every solved distribution of the result
+   is exactly the pin recorded for its project (fuel / depth exhaustion is excluded by the statement). *)
+Theorem C05_consistent_solution_reproduces_itself :
+  forall pins inputs, consistent pins inputs ->
+  forall rest fuel e rc md,
+    match perform_compile_stack_x fuel e ((sol_of pins, true) :: rest) inputs None rc md false [] [] with
+    | COk g roots => reproduces pins g
+    | CNoCand _ _ _ => False
+    | CFatal _ => True
+    end.
+Proof. exact solution_reproduces_itself. Qed.
+Print Assumptions C05_consistent_solution_reproduces_itself.
+
+(* the same under the weaker, marker-aware hypothesis (requirements whose marker cannot apply in the run's
+   environment need no pin) and for any --only-binary setting *)
+Theorem C05_consistent_solution_reproduces_itself_marker_aware :
+  forall e pins inputs, consistent_for e pins inputs ->
+  forall rest fuel rc md ob_all ob,
+    match perform_compile_stack_x fuel e ((sol_of pins, true) :: rest) inputs None rc md ob_all ob [] with
+    | COk g roots => reproduces pins g
+    | CNoCand _ _ _ => False
+    | CFatal _ => True
+    end.
+Proof. exact solution_reproduces_itself_for. Qed.
+Print Assumptions C05_consistent_solution_reproduces_itself_marker_aware.
+
+(* the hypotheses are met by a non-trivial solution (five projects, a shared dependency, a project reached only
+   through an extra, respelled names), and each of them is needed: without name hygiene of the pins, without
+   consistency, or with an input that is itself a distribution the conclusions fail on concrete universes *)
+Theorem C05_reproduction_is_not_vacuous_and_hypotheses_are_needed :
+  consistent ex_pins ex_inputs /\
+  (consistent_but_for_names nm_pins nm_inputs /\
+   nm_run [(sol_of nm_pins, true)] <> nm_run [(sol_of nm_pins, true); (nm_index, false)]) /\
+  (show (in_run [(sol_of in_pins, true)]) = ("no candidate: c", []) /\
+   show (in_run [(sol_of in_pins, true); (in_index, false)]) = ("ok", [("in0_txt", "None"); ("b", "2.0"); ("c", "1.0")])).
+Proof.
+  split; [exact ex_consistent|]. split.
+  - destruct theorems_without_name_hygiene_refuted as [H1 [_ [_ H4]]]. split; assumption.
+  - exact inconsistent_solution_depends_on_the_rest.
+Qed.
+Print Assumptions C05_reproduction_is_not_vacuous_and_hypotheses_are_needed.
 
 (* The whole-chain statement's last sentence is FALSE of the faithful model (and of /repo: known finding
    C05-release-residue): [a; b; c] is pinned [3.0; 3.0; 1.0] by the first compile and [4.1; 3.0; 1.0] when
